@@ -1,7 +1,7 @@
 (* C02 — Validity: decisions extend the instance base and stem from an honest input. *)
 From Coq Require Import ZArith List Bool Lia.
 From F3 Require Import Spec SpecProofs.
-From F3 Require Instance InstanceNoPanic Refine RefineNet RefineRun InstanceQuorum HappyPath HappyInst HappyStep HappyNet HappyLive QuorumProofs.
+From F3 Require Instance InstanceNoPanic Refine RefineNet RefineRun InstanceQuorum HappyPath HappyInst HappyStep HappyNet HappyLive HappyTimed QuorumProofs.
 Import ListNotations.
 Open Scope Z_scope.
 
@@ -216,3 +216,40 @@ Proof.
   destruct (T H1 H2 k Hk) as (_ & j & Ej & Ev). exists j. split; assumption.
 Qed.
 Transparent hx_acts RefineNet.nrun HappyLive.deliveredb.
+
+(* ---- the same with synchrony stated as a TIME BOUND (Gpbft/HappyTimed.v) ----
+   st k = the clock reading at which member k starts; B = min(QUALITY timeout, round-0 phase timeout).  The schedule
+   consists of starts (member k at st k) and deliveries only, and every delivery to k happens at a clock reading in
+   [st k, st k + B) -- e.g. all members start within sigma, every message takes at most delta, sigma + 3 delta < B.
+   Then no phase timer of a receiver has expired when a message reaches it (every round-0 phase timer is armed at the time
+   of the event that began the phase plus its timeout, hence at or beyond st k + B), so all of the above applies: only
+   round-0 votes for v are cast and, once everything cast has been delivered, every honest member has decided v. *)
+Theorem c02_happy_network_all_decide_timed : forall c honest input v,
+  InstanceNoPanic.committee_wf c -> Instance.c_total c <= 65535 -> 0 <= Instance.c_rebro_round c -> (2 <= length v)%nat ->
+  (forall k, honest k = true -> input k = v) ->
+  forall (st : Z -> Z) hs, (forall k, RefineNet.member c honest k <-> In k hs) -> NoDup hs ->
+  QuorumGen.isStrongQuorum (InstanceDecide.sum_power c hs) (Instance.c_total c) = true ->
+  forall acts, RefineNet.all_ok c honest (RefineNet.net0 input) acts -> HappyTimed.all_timed c st acts ->
+  let n := RefineNet.nrun c (RefineNet.net0 input) acts in
+  (forall k, RefineNet.member c honest k -> Instance.i_phase (RefineNet.n_inst n k) <> Instance.INITIAL) ->
+  (forall k s p, RefineNet.member c honest k -> RefineNet.member c honest s -> HappyLive.four p ->
+     In (Refine.voteS s 0 p v) (RefineNet.n_votes n) -> HappyLive.delivered acts k s p) ->
+  forall k, RefineNet.member c honest k ->
+    Instance.i_phase (RefineNet.n_inst n k) = Instance.TERMINATED /\
+    exists j, Instance.i_term (RefineNet.n_inst n k) = Some j /\ Instance.j_value j = v.
+Proof. exact HappyTimed.timed_all_decide. Qed.
+Print Assumptions c02_happy_network_all_decide_timed.
+Theorem c02_timed_schedule_is_happy : forall c honest input v,
+  InstanceNoPanic.committee_wf c -> Instance.c_total c <= 65535 -> 0 <= Instance.c_rebro_round c -> (2 <= length v)%nat ->
+  (forall k, honest k = true -> input k = v) ->
+  forall (st : Z -> Z) acts, RefineNet.all_ok c honest (RefineNet.net0 input) acts -> HappyTimed.all_timed c st acts ->
+  HappyNet.all_happy c (RefineNet.net0 input) acts.
+Proof.
+  intros c honest input v Hwf Hsc Hrr Hv Hun st acts Hok Ht.
+  apply (HappyTimed.timed_is_happy c honest input v Hwf Hsc Hrr Hv Hun st acts (RefineNet.net0 input)
+           (RefineNet.NI_net0 c honest input) (HappyNet.HN_net0 c honest input v) (HappyTimed.TI_net0 c honest input st) Hok Ht).
+Qed.
+Print Assumptions c02_timed_schedule_is_happy.
+(* non-vacuity: the 68-action schedule keeps the time bound (all four members start at 0, B = 2000, deliveries at 1..16) *)
+Example c02_timed_example : forallb (HappyTimed.timed_actb hx_cfg (fun _ => 0)) hx_acts = true /\ HappyTimed.Bnd hx_cfg = 2000.
+Proof. vm_compute. split; reflexivity. Qed.
